@@ -12,7 +12,7 @@ This file mirrors that part: the `Name` property and the reservation mark of eve
 * `find_component_by_name / find_ns_by_name / find_child_connection_point_by_name` → `findChild` (first neighbour with the name)
 * `ret = dict(); for x in ids: ret[x.name] = x` … `.values()` / `[name]`  → `dictVals` / `dictGet` (first position, last value)
 * `Topology.nodes` (facilities excluded) / `Topology.facilities`        → `topoNodes` / `topoFacilities`
-* `Node.interface_list` (components through the name-keyed dictionary)  → `ifaceListNodeD`
+* `Node.interface_list` (components by id since /repo 4a83e34; through the name-keyed dictionary before) → `ifaceListNodeD`
 * `Topology.remove_node/remove_facility/remove_switch/remove_link/remove_network_service(name)`,
   `Node.remove_component/remove_network_service(name)`, `Interface.remove_child_interface(name=)`,
   `NetworkService.remove_interface(name=)` → `…ByName`
@@ -65,9 +65,11 @@ def topoNss (g : G) (d : Dir) : List Nat := dictVals d (allNss g)
 def compsOf (g : G) (d : Dir) (n : Nat) : List Nat := dictVals d (g.nbrs n .has .comp)
 def nssOf (g : G) (d : Dir) (p : Nat) : List Nat := dictVals d (g.nbrs p .has .ns)
 
-/-- `Node.interface_list`: the direct interfaces, then those of `self.components.values()` -/
-def ifaceListNodeD (g : G) (d : Dir) (n : Nat) : List Nat :=
-  directIfs g n ++ (compsOf g d n).flatMap (fun c => directIfs g c)
+/-- `Node.interface_list`: the direct interfaces, then those of every component of the node, reached by id
+(`get_all_network_node_components`; before /repo fix 4a83e34 through `self.components.values()`, which holds one of two
+components of the same name: `(compsOf g d n).flatMap …`).  `d` is kept for the callers. -/
+def ifaceListNodeD (g : G) (_d : Dir) (n : Nat) : List Nat :=
+  directIfs g n ++ (g.nbrs n .has .comp).flatMap (fun c => directIfs g c)
 
 /-- `Topology.remove_node(name)` -/
 def removeNodeByName (g : G) (d : Dir) (name : Nat) : Except Err G :=
@@ -105,15 +107,14 @@ def removeNsByName (g : G) (d : Dir) (name : Nat) : Except Err G := do
   removeNsApi g s
 
 /-- `Node.remove_component(name)` through the node handle `n`: the id comes from `find_component_by_name` (first match),
-the interfaces to disconnect from `self.components[name]` (dictionary: last match) -/
+and the interfaces to disconnect are those of a handle made for that id (since /repo fix 4a83e34; before, those of
+`self.components[name]` - dictionary: last match - so that with two components of one name one was disconnected and the
+other removed) -/
 def nodeRemoveComponent (g : G) (d : Dir) (n : Nat) (name : Nat) : Except Err G := do
   if g.cls? n != some .node then .error .query else
   let c ← findChild g d n .has .comp name
-  match dictGet d (g.nbrs n .has .comp) (some name) with
-  | none => .error .query
-  | some c' => do
-    let g1 ← disconnectDeep g (ifaceListComp g c')
-    removeComp g1 c
+  let g1 ← disconnectDeep g (ifaceListComp g c)
+  removeComp g1 c
 
 /-- `Node.remove_network_service(name)` through the node handle `n` -/
 def nodeRemoveNs (g : G) (d : Dir) (n : Nat) (name : Nat) : Except Err G := do
